@@ -1,7 +1,8 @@
 #!/usr/bin/env python3
-"""Regenerates MANIFEST.json from harness/index.json (claimed checks) and na.json (not-applicable reasons)."""
+"""Regenerates MANIFEST.json from harness/index.d/*.json (claimed checks) and na.json (not-applicable reasons)."""
 import json
-idx = json.load(open('/verif/harness/index.json'))
+import glob, os
+idx = {os.path.basename(f)[:-5]: json.load(open(f)) for f in sorted(glob.glob('/verif/harness/index.d/*.json'))}
 na = json.load(open('/verif/na.json'))
 props = [json.loads(l) for l in open('/verif/properties.jsonl')]
 checks = []
